@@ -62,6 +62,7 @@ type Tr struct {
 	opaqueAtoms  map[string][]opaqueInst  // opaque function symbol -> applications seen so far
 	footTemplates map[string]footTemplate // opaque function symbol -> read-set template of its definition
 	footUsed      map[string]bool
+	refGap        map[string][2]string // fresh object (or sub-object of one) -> the address gap it lives in
 	cbParam       ssa.Value     // callback parameter of an iterating function under verification (callback.go)
 	cbEnv         map[string]EV // its parameter bindings
 	stableUsed   map[string]bool
@@ -317,6 +318,10 @@ func (tr *Tr) freshRef(st *State, hint string) string {
 	// the allocation counter advances by at least one: an object's embedded sub-objects are addressed inside the gap
 	// (see subRefOfLoc), so the step is left open
 	tr.sc.fact(sLt(st.top, nt))
+	if tr.refGap == nil {
+		tr.refGap = map[string][2]string{}
+	}
+	tr.refGap[r] = [2]string{r, nt} // the object and its embedded sub-objects are addressed in [r, nt)
 	st.top = nt
 	return r
 }
@@ -906,9 +911,16 @@ func (tr *Tr) cutLoopEntry(fr *Frame, li *loopInfo, st *State, entryPhis map[*ss
 		if mi.sort != "" {
 			tr.fresh++
 			sym := smtName(fmt.Sprintf("%s@%d", name, tr.fresh))
-			tr.heapVar(hst, name, mi.sort)
+			oldT := tr.heapVar(hst, name, mi.sort)
 			tr.sc.declare(sym, "() "+mi.sort)
 			hst.vars[name] = Sc{T: sym}
+			if !mi.mutates {
+				// the loop body only writes objects it allocates itself: everything that existed when the loop was entered
+				// keeps its contents in this heap, whatever the iteration
+				tr.noteFrameTop(st.top)
+				tr.sc.factLocal(fmt.Sprintf("(forall ((r Int)) (! (=> (< r %s) (= (select %s r) (select %s r))) :pattern ((select %s r))))", st.top, sym, oldT, sym))
+				tr.allocParent[sym] = oldT
+			}
 		} else if cur, ok := hst.vars[name]; ok {
 			hst.vars[name] = tr.havocLike(name, cur, hst)
 		}
